@@ -14,6 +14,7 @@ EXPLANATION = ('Structural conditions of C12: (R12.1) replay <-> prune agreement
                'renames and re-opens for append, removing the temp file on error; (R12.5) liveness sets: job live <=> !is_terminated, worker '
                'live <=> is_running.')
 NOT_DECIDED = ['equality of the two restores (relational property over journals)']
+RELATED = {'C13': ['R13.2']}
 ASSUMPTIONS = []
 CLIENT = HQ + 'client::'
 SETC = {'hashbrown::set::HashSet::contains', 'std::collections::hash::set::HashSet::contains'}
